@@ -1,11 +1,16 @@
-"""C12 — time-code arithmetic.  Theorems: coq/Properties/C12.v.  Tie: the extracted OCaml model
-(coq/extract) against ttconv.time_code on frame ranges (exhaustive over 24 h in the thorough tier),
-exact frame boundaries, parse/print, add_frames, offsets and ClockTime.  S (Spec/Smpte12M.v:
-valid/succ) is mirrored here for the violation search on the implementation."""
-import math, os, subprocess, sys
+"""C12 — time-code arithmetic.  Theorems: coq/Properties/C12.v.  Two ties, both re-checked on every run:
+(1) translation: harness/pytrans.py regenerates coq/Gen/TimeCodeSrc.v from the current time_code.py (fail-closed)
+and coq/Proofs/C12/SrcRefines.v proves that the generated definitions equal the hand-written Model/TimeCode.v on
+the injection of its inputs (all rates in lowest terms, all frame counts / labels / rationals); the generated
+definitions are also evaluated by vm_compute against the code on a few hundred inputs (PyNum = CPython);
+(2) differential: the extracted OCaml model (coq/extract) against ttconv.time_code on frame ranges (exhaustive
+over 24 h in the thorough tier), exact frame boundaries, parse/print, add_frames, offsets and ClockTime.
+S (Spec/Smpte12M.v: valid/succ) is mirrored here for the violation search on the implementation."""
+import math, os, re, subprocess, sys
 from fractions import Fraction
 from concurrent.futures import ProcessPoolExecutor
 import common as C
+import gen_tables, pytrans
 
 DRIVER = C.COQ + "/extract/tc_driver"
 RATES = {"24": (24, 1), "25": (25, 1), "30": (30, 1), "50": (50, 1), "60": (60, 1),
@@ -76,6 +81,161 @@ def shard(args):
     return n_eval, mism[:20], sfail[:20], len(mism), len(sfail)
 
 
+# ---- first tie: translation ---------------------------------------------------------------------------
+# functions of the anchored code that no translated definition covers (tied by the differential runs only)
+DIFFERENTIAL_ONLY = ["SmpteTimeCode.parse (regular expressions; hand model parse_tc, theorem C12_parse_print)",
+                     "ClockTime.parse (regular expression; not in M: used by the SRT/VTT readers, C10/C11)",
+                     "SmpteTimeCode.from_seconds on float arguments (outside the exact model: Unsupported)",
+                     "ClockTime.from_seconds on float arguments (CPython round(x, 3) on binary64: compared with S only)",
+                     "SmpteTimeCode.to_seconds / ClockTime.to_seconds (float results; not part of the property)",
+                     "__eq__ / __repr__ / set_separator (trivial; set_separator is the record update used in C12_source_refines_clock_str)",
+                     "imsc/attributes.py to_time_format (C05's model; reaches time_code.py through from_seconds / ClockTime)"]
+REFINEMENT = {"SmpteTimeCode.is_drop_frame": "C12_source_refines_is_drop_frame", "_HHMMSSTimeExpression.to_seconds": "C12_source_refines_to_seconds",
+              "SmpteTimeCode.to_frames": "C12_source_refines_to_frames", "SmpteTimeCode.to_temporal_offset": "C12_source_refines_to_temporal_offset",
+              "SmpteTimeCode.from_frames": "C12_source_refines_from_frames", "SmpteTimeCode.add_frames": "C12_source_refines_add_frames",
+              "SmpteTimeCode.from_seconds": "C12_source_refines_from_seconds (int/Fraction branch)", "SmpteTimeCode.__str__": "C12_source_refines_tc_str",
+              "ClockTime.from_seconds": "C12_source_refines_clock_from_seconds (Fraction argument)", "ClockTime.__str__": "C12_source_refines_clock_str"}
+SRC_CASES = C.GEN + "/Cases_C12_src.v"
+SRC_HEADER = r"""From TT Require Import Base.Prelude Base.PyNum Gen.TimeCodeSrc.
+Definition qeq (x : num) (e : Z * Z) : bool := (num_n x =? fst e) && (num_d x =? snd e).
+Fixpoint qseq (l : list num) (e : list (Z * Z)) : bool :=
+  match l, e with [], [] => true | x :: l', y :: e' => qeq x y && qseq l' e' | _, _ => false end.
+Definition tcq (o : outcome SmpteTimeCode) (e : list (Z * Z)) : bool := match o with Ok t => qseq (SmpteTimeCode_fields t) e | _ => false end.
+Definition ctq (o : outcome ClockTime) (e : list (Z * Z)) : bool := match o with Ok t => qseq (ClockTime_fields t) e | _ => false end.
+Definition raises {A} (o : outcome A) : bool := match o with Raise ValueError => true | _ => false end.
+Definition unsupported {A} (o : outcome A) : bool := match o with Unsupported _ => true | _ => false end.
+Definition cts (o : outcome ClockTime) (sep e : text) : bool := match o with Ok t => text_eqb (src_clock_str (ClockTime_set_ms_separator t sep)) e | _ => false end.
+"""
+
+
+def cnum(x):
+    x = Fraction(x)
+    return f"(inj {C.z(x.numerator)})" if x.denominator == 1 else f"(inj_frac {C.z(x.numerator)} {x.denominator})"
+
+def qp(x):
+    x = Fraction(x); return f"({C.z(x.numerator)}, {x.denominator})"
+
+def qps(xs):
+    return "[" + "; ".join(qp(x) for x in xs) + "]"
+
+
+def src_cases(rng):
+    """[(Coq boolean term, description)]: PyNum operations and the generated definitions against CPython / the code"""
+    from ttconv.time_code import SmpteTimeCode as T, ClockTime as CT
+    cases = []
+    def rnd():
+        k = rng.random()
+        if k < 0.35: return rng.randrange(-2000, 2000)
+        if k < 0.5: return rng.choice([0, 1, -1, 60, 1001, 3600, 10 ** 12])
+        return Fraction(rng.randrange(-10 ** rng.randrange(1, 9), 10 ** rng.randrange(1, 9)), rng.randrange(1, 10 ** rng.randrange(1, 6)))
+    binops = [("py_add", lambda a, b: a + b), ("py_sub", lambda a, b: a - b), ("py_mul", lambda a, b: a * b),
+              ("py_truediv", lambda a, b: Fraction(a) / b), ("py_floordiv", lambda a, b: a // b), ("py_mod", lambda a, b: a % b)]
+    unops = [("py_floor", math.floor), ("py_ceil", math.ceil), ("py_round", round), ("py_int", int), ("py_neg", lambda a: -a),
+             ("py_numerator", lambda a: Fraction(a).numerator), ("py_denominator", lambda a: Fraction(a).denominator)]
+    cmps = [("py_lt", lambda a, b: a < b), ("py_le", lambda a, b: a <= b), ("py_eq", lambda a, b: a == b), ("py_ge", lambda a, b: a >= b)]
+    for i in range(360):
+        a, b = rnd(), rnd()
+        if i % 9 == 0: a = Fraction(2 * rng.randrange(-500, 500) + 1, 2)          # exact ties for round
+        if i % 3 == 0:
+            nm, f = binops[(i // 3) % len(binops)]
+            if b == 0 and nm in ("py_truediv", "py_floordiv", "py_mod"): b = 7
+            cases.append((f"qeq ({nm} {cnum(a)} {cnum(b)}) {qp(f(a, b))}", f"{nm} {a} {b}"))
+        elif i % 3 == 1:
+            nm, f = unops[(i // 3) % len(unops)]
+            cases.append((f"qeq ({nm} {cnum(a)}) {qp(f(a))}", f"{nm} {a}"))
+        else:
+            nm, f = cmps[(i // 3) % len(cmps)]
+            cases.append((f"Bool.eqb ({nm} {cnum(a)} {cnum(b)}) {C.boolean(f(a, b))}", f"{nm} {a} {b}"))
+            nd = rng.randrange(0, 5); x = Fraction(a) + Fraction(rng.randrange(-9, 9), 2 * 10 ** nd)
+            cases.append((f"qeq (py_round_nd {cnum(x)} {nd}) {qp(round(x, nd))}", f"round({x}, {nd})"))
+    rates = list(RATES.values()) + [(12, 1), (15, 2), (120000, 1001), (48000, 1001), (1, 3), (2997, 100)]
+    for rn, rd in rates:
+        fps = Fraction(rn, rd); R = f"(Some {cnum(fps)})"; total = 24 * 3600 * rn // rd
+        unit = round(600 * fps)
+        for n in [0, 1, -3, rng.randrange(1, 9) * unit - 1, rng.randrange(1, 9) * unit, total - 1] + [rng.randrange(0, 3 * total + 5) for _ in range(5)]:
+            try:
+                tc = T.from_frames(n, fps)
+                lab = [tc.get_hours(), tc.get_minutes(), tc.get_seconds(), tc.get_frames()]
+                obj = f"(SmpteTimeCode_new {' '.join(cnum(v) for v in lab)} {cnum(fps)})"
+                cases.append((f"tcq (src_from_frames {cnum(n)} {R}) {qps(lab + [fps])}", f"from_frames({n}, {fps})"))
+                cases.append((f"Bool.eqb (src_is_drop_frame {obj}) {C.boolean(tc.is_drop_frame())}", f"is_drop_frame @ {fps}"))
+                if n >= 0 and rd in (1, 2, 1001):      # elsewhere float(secs) * Fraction is not exact in CPython (documented binary64 site)
+                    cases.append((f"qeq (src_to_frames {obj}) {qp(tc.to_frames())}", f"to_frames({lab} @ {fps})"))
+                    cases.append((f"qeq (src_to_temporal_offset {obj}) {qp(tc.to_temporal_offset())}", f"to_temporal_offset({lab} @ {fps})"))
+                    cases.append((f"text_eqb (src_tc_str {obj}) {C.text(str(tc))}", f"str({lab} @ {fps})"))
+                    k = rng.randrange(0, 4000); t2 = T.from_frames(n, fps); t2.add_frames(k)
+                    cases.append((f"tcq (src_add_frames {obj} {cnum(k)}) {qps([t2.get_hours(), t2.get_minutes(), t2.get_seconds(), t2.get_frames(), fps])}", f"add_frames({lab} @ {fps}, {k})"))
+                    x = rng.choice([Fraction(n) / fps, Fraction(rng.randrange(0, 10 ** 8), rng.randrange(1, 10 ** 4)), Fraction(n)])
+                    t3 = T.from_seconds(x, fps)
+                    cases.append((f"tcq (src_from_seconds (Exact {cnum(x)}) {R}) {qps([t3.get_hours(), t3.get_minutes(), t3.get_seconds(), t3.get_frames(), fps])}", f"from_seconds({x}, {fps})"))
+            except ZeroDivisionError:
+                cases.append(("true", f"skipped: the code raises ZeroDivisionError at rate {fps}, n = {n} (not modelled)"))
+            except Exception as e:                      # anything else the generated model cannot do either: a disagreement
+                cases.append(("false", f"the code raised {type(e).__name__}: {e} at rate {fps}, n = {n}"))
+    for name, call in (("from_frames", lambda: T.from_frames(5, None)), ("from_seconds", lambda: T.from_seconds(Fraction(5), None))):
+        try: call(); raised = False
+        except ValueError: raised = True
+        arg = "(inj 5)" if name == "from_frames" else "(Exact (inj 5))"
+        cases.append((f"Bool.eqb (raises (src_{name} {arg} None)) {C.boolean(raised)}", f"{name}(5, None) raises ValueError"))
+    cases.append(("unsupported (src_from_seconds Inexact (Some (inj 25)))", "from_seconds(float): Unsupported"))
+    xs = [Fraction(rng.randrange(0, 360000 * 10 ** 4), 10 ** 4) for _ in range(25)] + [Fraction(2 * rng.randrange(0, 10 ** 7) + 1, 2000) for _ in range(15)] + \
+         [Fraction(rng.randrange(0, 10 ** 10), rng.randrange(1, 10 ** 5)) for _ in range(25)] + [Fraction(60 * k) - Fraction(d, 10000) for k in (1, 60, 6000) for d in (4, 5, 6)] + [Fraction(0)]
+    for x in xs:
+        ct = CT.from_seconds(x)
+        cases.append((f"ctq (src_clock_from_seconds {cnum(x)}) {qps([ct.get_hours(), ct.get_minutes(), ct.get_seconds(), ct.get_milliseconds()])}", f"ClockTime.from_seconds({x})"))
+        sep = rng.choice(".,"); ct.set_separator(sep)
+        cases.append((f"cts (src_clock_from_seconds {cnum(x)}) {C.text(sep)} {C.text(str(ct))}", f"str(ClockTime.from_seconds({x})) with separator {sep!r}"))
+    try: CT.from_seconds(Fraction(-1, 3)); raised = False
+    except ValueError: raised = True
+    cases.append((f"Bool.eqb (raises (src_clock_from_seconds (inj_frac (-1) 3))) {C.boolean(raised)}", "ClockTime.from_seconds(-1/3) raises ValueError"))
+    return cases
+
+
+def run_src_cases(run):
+    """evaluate the generated definitions inside Coq against the code; returns (evaluations, [descriptions of disagreements])"""
+    try:
+        cases = src_cases(run.rng)
+    except Exception as e:
+        return 0, [f"the code raised {type(e).__name__}: {e} while the comparison inputs were being run"]
+    body = SRC_HEADER + "Eval vm_compute in check_all [\n" + ";\n".join(c for c, _ in cases) + "\n].\n"
+    with open(SRC_CASES, "w") as f: f.write(body)
+    rc, out = C.coqc(SRC_CASES, 600)
+    res = C.coq_eval_results(out)
+    C.clean_cases("Cases_C12_src")
+    if rc or res is None or res[0] != len(cases):
+        return len(cases), ["case file did not evaluate: " + out[-400:]]
+    return len(cases), [cases[i][1] for i in res[1]]
+
+
+def coq_error(log):
+    """the `File ..., line ...: Error: ...` part of a make / coqc log"""
+    m = re.search(r'File "([^"]+)", line (\d+), characters [^\n]*\n(?:[^\n]*\n)?Error:(.*?)(?:\n\s*\n|\nmake|\Z)', log, re.S)
+    if not m: return " ".join(log[-600:].split())
+    msg = " ".join(m.group(3).split())
+    k = re.search(r"(Unable to unify|The term|Tactic failure|Cannot|No matching|Found no subterm|The reference|Illegal)", msg)
+    if msg.startswith("In environment") and k: msg = msg[k.start():]          # drop the dump of the proof context
+    return f"{m.group(1)} line {m.group(2)}: {msg[:400]}"
+
+
+def odd_rate_probe(rng):
+    """Only used when the refinement proof is broken and S holds on the property's rates: look for a frame count at a rate
+    OUTSIDE the property's rates where the code and the hand-written model differ (labels only: int / int and floor are
+    exact there, float(secs) * Fraction in to_frames is not).  Returns a description or None."""
+    from ttconv.time_code import SmpteTimeCode as T
+    for rn, rd in [(147, 5), (59, 2), (7, 2), (10, 3), (2997, 125), (12, 1), (48000, 1001), (120000, 1001), (25000, 1001), (15000, 1001), (1, 1), (1000, 1)]:
+        fps = Fraction(rn, rd); total = 24 * 3600 * rn // rd
+        ns = sorted({0, 1, total} | {rng.randrange(0, 2 * total + 2) for _ in range(1500)} | set(range(0, min(total, 4000))))
+        out = driver([f"FL {rn} {rd} " + " ".join(map(str, ns))])
+        for n, line in zip(ns, out):
+            try:
+                tc = T.from_frames(n, fps); lab = f"{tc.get_hours()} {tc.get_minutes()} {tc.get_seconds()} {tc.get_frames()}"
+            except Exception as e:
+                lab = f"raises {type(e).__name__}"
+            if lab != " ".join(line.split()[:4]):
+                return f"from_frames({n}, Fraction({rn}, {rd})): code gives {lab}, Model/TimeCode.v gives {' '.join(line.split()[:4])}"
+    return None
+
+
 def frame_sets(run):
     day = 24 * 3600
     sets = {}
@@ -102,9 +262,40 @@ def frame_sets(run):
 def main():
     run = C.Run("C12", "proof")
     run.hygiene()
-    ok, log = run.build(["Proofs/C12/Derived.vo"], clean=(run.tier == "thorough"))
-    proofs_ok = ok and run.theorems()
+    sys.path.insert(0, C.SRC)
+    # ---- tie by translation: regenerate Gen/TimeCodeSrc.v from the current source (fail-closed) ---------------
+    changed, trans_errors = gen_tables.generate({"TimeCodeSrc"})
+    listed = "Gen/TimeCodeSrc.v" in open(C.COQ + "/_CoqProject").read()
+    if listed != (not trans_errors):
+        with C.Lock(): C.sh(["sh", C.VERIF + "/tools/mkproject.sh"], 60)
+    tinfo = {}
+    if trans_errors:
+        run.violation("translator harness/pytrans.py failed closed on ttconv/time_code.py (construct outside the translated subset, "
+                      "or a changed signature): " + "; ".join(trans_errors),
+                      dict(kind="translator", translator="harness/pytrans.py", source="ttconv/time_code.py", errors=trans_errors,
+                           consequence="coq/Gen/TimeCodeSrc.v removed; Proofs/C12/SrcRefines.v and Properties/C12.v cannot be re-established "
+                                       "against the current source"), found_input=False)
+    else:
+        tinfo = pytrans.translate(C.SRC + "/ttconv/time_code.py")[1]
+        run.log("source translated: " + ", ".join(tinfo["functions"]) + (" (text changed)" if changed else ""))
+    clean = run.tier == "thorough"
+    ok, log = run.build(["Proofs/C12/Derived.vo"], clean=clean)
+    ok_gen = ok_src = False; log_src = ""
+    if not trans_errors:
+        ok_gen, log_src = run.build(["Gen/TimeCodeSrc.vo"] + (["Base/PyNum.vo"] if clean else []), clean=clean)
+        if ok_gen: ok_src, log_src = run.build(["Proofs/C12/SrcRefines.vo"], clean=clean)
+    thm_ok = run.theorems()          # records the theorem names also when the file cannot be compiled
+    proofs_ok = ok and ok_src and thm_ok
     if not ok: run.proof_log = log[-3000:]
+    elif not ok_src: run.proof_log = log_src[-3000:]
+    if ok and not ok_src:
+        run.log("the theorems about the hand-written model still compile (Proofs/C12/Derived.vo); their transfer to the current source does not: "
+                + ("translator failed" if trans_errors else coq_error(log_src)))
+    # the generated definitions evaluated inside Coq against the code (PyNum semantics = CPython on these inputs)
+    n_srcev, src_bad = (0, [])
+    if ok_gen:
+        n_srcev, src_bad = run_src_cases(run)
+        run.log(f"generated model vs code by vm_compute: {n_srcev} evaluations, {len(src_bad)} disagreements")
     try:
         ensure_driver()
     except Exception as e:
@@ -124,7 +315,6 @@ def main():
     run.log(f"frames: {n_eval} evaluations, {n_mism} model/code mismatches, {n_sfail} S failures on the code")
 
     # ---- other operations: single process, moderate volume ----------------------------------------
-    sys.path.insert(0, C.SRC)
     from ttconv.time_code import SmpteTimeCode as T, ClockTime as CT
     rng = run.rng
     nother = 20000 if run.tier == "thorough" else 2500
@@ -247,14 +437,38 @@ def main():
         run.violation(f"{f[2]} fails on the implementation at rate {f[0]}, input {f[1]}: {f[3]}",
                       dict(kind="S-on-code", clause=f[2], rate=f[0], input=f[1], detail=f[3], others=unlisted[1:10]))
     # mismatches at 24000/1001 are still mismatches (M transcribes the code there too)
-    if (n_mism or not proofs_ok) and not unlisted:
-        what = []
-        if not proofs_ok: what.append("theorems of coq/Properties/C12.v no longer check: " + getattr(run, "proof_log", "")[-600:])
-        if n_mism: what.append(f"correspondence Model/TimeCode.v vs time_code.py disagrees on {n_mism} inputs, first {mism[0]}")
-        run.violation("; ".join(what), dict(kind="broken-tie", proofs_ok=proofs_ok, theorem_file="coq/Properties/C12.v",
+    what = []; broken = None
+    if not ok:
+        broken = "coq/Proofs/C12"; what.append("proofs about the hand-written model no longer compile: " + coq_error(log))
+    elif trans_errors:
+        pass                                             # reported above; nothing further can be compiled
+    elif not ok_src:
+        broken = "coq/Proofs/C12/SrcRefines.v"
+        what.append("refinement coq/Proofs/C12/SrcRefines.v (model regenerated from ttconv/time_code.py = hand-written Model/TimeCode.v) "
+                    "no longer compiles, so the theorems of coq/Properties/C12.v are not re-established against the current source: " + coq_error(log_src))
+    elif not thm_ok:
+        broken = "coq/Properties/C12.v"; what.append("theorems of coq/Properties/C12.v no longer check: " + getattr(run, "proof_log", "")[-600:])
+    if src_bad: what.append(f"generated model (harness/pytrans.py over Base/PyNum.v) disagrees with the code under vm_compute on {len(src_bad)} inputs, first: {src_bad[0]}")
+    if n_mism: what.append(f"correspondence Model/TimeCode.v vs time_code.py disagrees on {n_mism} inputs, first {mism[0]}")
+    hint = None
+    if what and not unlisted and broken == "coq/Proofs/C12/SrcRefines.v" and not n_mism:
+        hint = odd_rate_probe(rng)
+        what.append("no input of the property's domain (8 rates) fails S or the correspondence; " +
+                    ("outside it the code now differs from the hand-written model: " + hint if hint else
+                     "no difference between code and hand-written model found at 12 other rates either (the refinement proof may be too brittle for this refactoring)"))
+    if what and not unlisted:
+        run.violation("; ".join(what), dict(kind="broken-tie", proofs_ok=proofs_ok, theorem_file=broken or "coq/Properties/C12.v", difference_outside_domain=hint,
                                             correspondence="extracted Model/TimeCode.v vs ttconv/time_code.py",
-                                            first_mismatches=mism[:10]), found_input=False)
-    run.cov.update(evaluations=n_eval + n_other, distinct_nontrivial=n_eval + n_other,
+                                            generated_vs_code=src_bad[:10], first_mismatches=mism[:10]), found_input=False)
+    elif what:
+        run.log("also: " + "; ".join(what))
+    run.cov["source_tie"] = dict(
+        translator="harness/pytrans.py -> coq/Gen/TimeCodeSrc.v (regenerated on this run)" if not trans_errors else "FAILED: " + "; ".join(trans_errors),
+        refinement_compiles=bool(ok_src), generated_vs_code_evaluations=n_srcev, generated_vs_code_disagreements=src_bad[:10],
+        tied_by_translation_and_refinement_theorem={k: v for k, v in REFINEMENT.items()} if ok_src else {},
+        tied_by_differential_runs_only=DIFFERENTIAL_ONLY + ([] if ok_src else ["(refinement not established on this run: every function)"]),
+        binary64_sites_modelled_exactly=tinfo.get("float_sites", []), outside_exact_model=tinfo.get("unsupported", []), notes=tinfo.get("notes", []))
+    run.cov.update(evaluations=n_eval + n_other + n_srcev, distinct_nontrivial=n_eval + n_other,
                    rule="frame counts per rate (quick: +-3 around every minute/10-minute/hour carry in real and nominal counts, "
                         "a stride-101 sweep and 2000 random counts up to 5 days; thorough: every count of 24 h), each through "
                         "from_frames/to_frames/str/parse and its successor; random exact frame boundaries and rationals through "
@@ -264,9 +478,14 @@ def main():
                    exhaustive=(run.tier == "thorough"),
                    samples=[dict(rate="30000/1001", n=1800, label="00:01:00;02"), dict(rate=f[0], input=str(f[1])) if (sfail and (f := sfail[0])) else dict(rate="25", boundary="29/25 -> frame 29")],
                    frames_per_rate={k: len(v) for k, v in sets.items()}, model_code_mismatches=n_mism, s_failures_on_code=n_sfail)
-    run.assumptions += ["float(secs)*rate and int/int true division in time_code.py are exact below 2^53 (checked by the exhaustive sweep)",
+    run.assumptions += ["float(secs)*rate and int/int true division in time_code.py are exact below 2^53 (checked by the exhaustive sweep); "
+                        "Base/PyNum.v models them as exact rational operations at the places listed in coverage.source_tie",
+                        "ZeroDivisionError is not modelled (x / 0 = 0 in Base/PyNum.v and in Z): no divisor is 0 for frame rates >= 9/1001",
+                        "SmpteTimeCode / ClockTime objects are immutable records in the generated model; add_frames returns the updated record",
                         "ClockTime.from_seconds on float arguments uses CPython round(x,3): compared with S only"]
-    return run.finish(["coq/extract: ExtrOcamlBasic directives only; Z kept inductive; driver.ml converts decimal text"])
+    return run.finish(["coq/extract: ExtrOcamlBasic directives only; Z kept inductive; driver.ml converts decimal text",
+                       "harness/pytrans.py (fail-closed ast -> Gallina translator) and the reading of Python numerics in coq/Base/PyNum.v "
+                       "(exercised against CPython by vm_compute on every run)"])
 
 
 if __name__ == "__main__":
